@@ -69,7 +69,7 @@ TOL = 1e-6  # implementation vs independent model
 TOL_SAME = 1e-9  # two runs of the implementation (Hirschberg vs full DP)
 HUGE = 10**18
 
-SCORINGS = {"m10ts-1tv-8": (10, -1, -8), "m1ts-1tv-1": (1, -1, -1), "m2ts0tv-3": (2, 0, -3)}
+SCORINGS = {"m10ts-1tv-8": (10, -1, -8), "m1ts-1tv-1": (1, -1, -1), "m2.5ts0tv-1.5": (2.5, 0, -1.5)}  # non-integer scores, a zero
 ASYM = "asym(A,C)=5,(C,A)=-20"
 
 TIERS = {
